@@ -353,6 +353,25 @@ theorem view_obs_stable (w : World) (hwf : w.WF) (op : Obj.Op) (c : Nat) (vc : V
     (Obj.step w op).1.views.cells[c]? = some vc ∧ viewSigs (Obj.step w op).1 vc = viewSigs w vc :=
   Sm.Obj.view_obs_stable' src! w hwf op c vc hc hv hs
 
+/-- … and so are the view's OTHER answers, which is where hidden indices and caches (a manifest's `_md5_set`, the tables of
+    an LCA_Database, the nodes of an SBT, the row count cached by a SQLite manifest) would show: `len(view)`,
+    `ss in view.manifest` for EVERY sketch, and the containment search with the dump's probe query -/
+theorem view_answers_stable (w : World) (hwf : w.WF) (op : Obj.Op) (c : Nat) (vc : ViewCell)
+    (hc : w.views.cells[c]? = some vc)
+    (hv : ∀ v cv, viewReceiver op = some v → w.views.cid v = some cv → cv ≠ c ∧ (vc.kind = .lazy → cv ≠ vc.db))
+    (hs : ∀ s cs, sigReceiver op = some s → w.sigs.cid s = some cs → cs ∉ deps w vc) :
+    viewLen (Obj.step w op).1 vc = viewLen w vc ∧ (∀ m, viewMember (Obj.step w op).1 vc m = viewMember w vc m) ∧
+    (probeOf (Obj.step w op).1 = probeOf w → viewFind (Obj.step w op).1 vc = viewFind w vc) :=
+  Sm.Obj.view_answers_stable' src! w hwf op c vc hc hv hs
+
+/-- every read-only call on the MANIFESTS of two views (`a + b`, `b + a`, `a + a`, `==`, `in`, `select_to_manifest`, `_select`,
+    `filter_rows`, `filter_on_columns`, `to_picklist`, `locations`, `len`, iteration, `write_to_csv`) leaves the whole
+    world as it was — in particular the membership answers of both operands (what the seeded `__add__` that aliased the
+    receiver's `_md5_set` broke) -/
+theorem manifest_reads_change_nothing (w : World) (name : String) (v u : Nat) (ss : List Nat) :
+    (Obj.step w (.vManifest name v u ss)).1 = w := by
+  simp only [Obj.step]; split <;> rfl
+
 /-- corollary for everything read back from disk (and for an LCA_Database, which copies values in): no signature object
     is referred to, so NOTHING done to any signature or sketch object, and nothing done through any other view, changes
     its answers -/
